@@ -170,3 +170,30 @@ def run(repo: Repo, rep: Report, tier: str) -> None:
               f"disjuncts {sorted(terms)}" + ("" if want <= terms else f"; missing {sorted(want - terms)}: such constants silently disappear from the blueprint"), dm.loc(fin[0]) if fin else dm.loc())
     ud = [n for n in walk_local(dm.node) if isinstance(n, ast.If) and "user_declared" in norm(n.test)]
     rep.check(len(ud) >= 2, "C20-R5", "user-declared constants always materialise", f"{len(ud)} user_declared guards", dm.loc())
+
+    # ---------------- R6 ---------------------------------------------------------------
+    rep.rule("C20-R6", "a pass that eliminates IR nodes (it records old id -> surviving id in `replacements`) must not strand names: the name table handed to the layout "
+             "(signal_refs) is re-pointed through those replacements, otherwise a named result whose node was merged or folded has no producer and gets no label or anchor")
+    from ..pipeline import compile_funcs as _cfs6
+    eliminators = [c for c in repo.all_classes() if "optimize" in c.methods and any(
+        isinstance(n, ast.Assign) and isinstance(n.targets[0], ast.Subscript) and norm(n.targets[0].value) == "self.replacements" for n in walk_local(c.methods["optimize"].node))]
+    rep.floor("C20-R6", "node-eliminating passes", len(eliminators), 2)
+    for cf in _cfs6(repo):
+        used = [c for c in calls_in(cf.node) if call_name(c) in {k.name for k in eliminators}]
+        if not used:
+            continue
+        passes_names = any(kwarg(c, "signal_refs") is not None for c in calls_in(cf.node, "LayoutPlanner"))
+        ccf = canon(cf)
+        applied = set()
+        for c_ in calls_in(cf.node):
+            texts = [ccf.text(a_) for a_ in list(c_.args) + [k_.value for k_ in c_.keywords]]
+            if any(t_.endswith(".signal_refs") for t_ in texts):
+                for t_ in texts:
+                    for k_ in eliminators:
+                        if t_.startswith(k_.name + "(") and t_.endswith(".replacements"):
+                            applied.add(k_.name)
+        missing = sorted({call_name(c) for c in used} - applied)
+        repointed = not missing
+        rep.check((not passes_names) or repointed, "C20-R6", f"{cf.short} re-points the name table after node-eliminating passes",
+                  f"replacements of {sorted(applied)} are applied to signal_refs" if repointed else
+                  f"{missing} drop nodes but signal_refs still names the dropped ids: `Signal a = x + 1; Signal b = x + 1;` exposes a only (b has no anchor and no label)", cf.loc(used[0]))
